@@ -225,12 +225,18 @@ func runMany(list, repo, verif string, seed int64) int {
 // foldInfo records in the evidence which new helpers were folded into their callers before the analysis.
 func foldInfo(ctx *core.Ctx, progs []*load.Program) {
 	seen := map[string]bool{}
-	var folded, kept, notes []string
+	var folded, kept, notes, renamed []string
 	for _, p := range progs {
 		for _, f := range p.Folded {
 			if !seen["f"+f] {
 				seen["f"+f] = true
 				folded = append(folded, f)
+			}
+		}
+		for _, f := range p.Renamed {
+			if !seen["r"+f] {
+				seen["r"+f] = true
+				renamed = append(renamed, f)
 			}
 		}
 		for _, f := range p.FoldKept {
@@ -244,11 +250,12 @@ func foldInfo(ctx *core.Ctx, progs []*load.Program) {
 			notes = append(notes, p.FoldNote)
 		}
 	}
-	if len(folded)+len(kept)+len(notes) > 0 {
+	if len(folded)+len(kept)+len(notes)+len(renamed) > 0 {
+		ctx.Info("renamed_functions_given_their_reference_name", renamed)
 		ctx.Info("new_helpers_folded_into_callers", folded)
 		ctx.Info("new_helpers_left_alone", kept)
 		ctx.Info("folding_notes", notes)
-		fmt.Printf("normalisation: %d new helper(s) folded into their callers, %d left alone%s\n", len(folded), len(kept), func() string {
+		fmt.Printf("normalisation: %d renamed function(s) given their reference name, %d new helper(s) folded into their callers, %d left alone%s\n", len(renamed), len(folded), len(kept), func() string {
 			if len(notes) > 0 {
 				return "; " + strings.Join(notes, "; ")
 			}
